@@ -653,7 +653,6 @@ fill_yly_eastr(
 	for (bitint_iter_t easteri = 0UL;
 	     (offs = bi383_next(&easteri, s), easteri);) {
 		/* easter offset calendar */
-		unsigned int yd;
 		struct md_s md;
 
 		if (wd_mask >> 1U) {
@@ -665,19 +664,30 @@ fill_yly_eastr(
 				continue;
 			}
 		}
-		if (!(yd = easter_get_yday(y))) {
-			continue;
-		} else if (!(yd += offs) || yd > 366) {
-			/* huh? */
-			continue;
-		} else if (!(md = yd_to_md(y, yd)).m || md.m > 12U) {
-			continue;
-		} else if (!md_match_p(md, m, d)) {
-			/* can't use this one, user wants it masked */
-			continue;
+		/* large offsets from the easters of the neighbouring years
+		 * end up in this year too */
+		for (int dy = -1; dy <= 1; dy++) {
+			const unsigned int ey = y + dy;
+			const int ndiy = 365 + !(y % 4U);
+			int eyd = easter_get_yday(ey) + offs;
+
+			if (dy < 0) {
+				eyd -= 365 + !(ey % 4U);
+			} else if (dy > 0) {
+				eyd += ndiy;
+			}
+			if (eyd <= 0 || eyd > ndiy) {
+				/* not in this year */
+				continue;
+			} else if (!(md = yd_to_md(y, eyd)).m || md.m > 12U) {
+				continue;
+			} else if (!md_match_p(md, m, d)) {
+				/* can't use this one, user wants it masked */
+				continue;
+			}
+			/* otherwise it's looking good */
+			ass_bi383(cand, pack_cand(md.m, md.d));
 		}
-		/* otherwise it's looking good */
-		ass_bi383(cand, pack_cand(md.m, md.d));
 	}
 	return;
 }
